@@ -237,6 +237,10 @@ def check(chk):
     # ------------------------------------------------------------- SORT-1
     _sort_rule(chk, f_add)
     _removal_complete(chk, repo)
+    # "not removed before its turn" presupposes that removal by key finds the registration: the returned key carries the parsed event name and
+    # the stored key (obligation shared with C07)
+    from sa.rules.c07 import _handler_keys
+    _handler_keys(chk, repo)
 
     # ------------------------------------------------------------- FLOW-1 / DOM-2
     for f in (f_rh, f_rhs):
@@ -1042,6 +1046,7 @@ def battery():
         M("waiting future resolved without the event's kwargs", EV, "        _future.set_result(kwargs)", "        _future.set_result(True)", "REMOVE-1"),
         M("replace_handler without kwargs keeps registrations that carry kwargs", EV, "            if kwargs:\n                # slice the full list [:] to make a copy so we can delete from the\n                # original while iterating\n                for rh in self.registered_handlers[event][:]:\n                    if rh[0] == handler and rh[2] == kwargs:\n                        self.registered_handlers[event].remove(rh)\n            else:\n                for rh in self.registered_handlers[event][:]:\n                    if rh[0] == handler:\n                        self.registered_handlers[event].remove(rh)\n", "            for rh in self.registered_handlers[event][:]:\n                if rh[0] == handler and rh[2] == kwargs:\n                    self.registered_handlers[event].remove(rh)\n", "REMOVE-1"),
         M("twin: replace_handler scans merged correctly", EV, "            if kwargs:\n                # slice the full list [:] to make a copy so we can delete from the\n                # original while iterating\n                for rh in self.registered_handlers[event][:]:\n                    if rh[0] == handler and rh[2] == kwargs:\n                        self.registered_handlers[event].remove(rh)\n            else:\n                for rh in self.registered_handlers[event][:]:\n                    if rh[0] == handler:\n                        self.registered_handlers[event].remove(rh)\n", "            for rh in self.registered_handlers[event][:]:\n                if rh[0] == handler and (not kwargs or rh[2] == kwargs):\n                    self.registered_handlers[event].remove(rh)\n", None),
+        M("returned handler key is a fresh uuid", EV, "        return EventHandlerKey(key, event)", "        return EventHandlerKey(uuid.uuid4(), event)", "KEY-7"),
     ]
 
 
